@@ -319,3 +319,258 @@ func rulePreflightNotAgainstRootUnion(c *Ctx, rule string) {
 		c.R.Add(rule, c.fk(c.A.TreeHandler), "root-mapped-paths/exist", c.P.Pos(c.A.TreeHandler.Pos()), true, "Tree.Handler maps no constant path to the root node")
 	}
 }
+
+// ruleSuffixSearchResumesAtNextByte — C02.R14 / C01.R16: a named or interceptor parameter followed by literal text
+// takes the shortest text its constraint accepts and after which that literal text occurs. When the constraint
+// rejects the text before an occurrence of the literal, the next occurrence is searched from the byte after the
+// *start* of the rejected one: literals that overlap themselves ("--" in "---", "11" in "111") have occurrences
+// that begin inside the rejected one, and resuming after its end skips them (404, or a lower-priority route).
+// Every re-search `strings.Index(text[low:], suffix)` in the syntax package has low = position + 1, and the position
+// is advanced by the same amount.
+func ruleSuffixSearchResumesAtNextByte(c *Ctx, rule string) {
+	c.R.Rule(c.R.Property+"."+rule, 1, "after a rejected occurrence of a parameter's literal suffix the search resumes at the next byte")
+	n := 0
+	for _, f := range c.libFuncs() {
+		if !strings.HasPrefix(an.FuncKey(f), "syntax.") {
+			continue
+		}
+		an.AllInstrs(f, func(in ssa.Instruction) {
+			call := an.CallOf(in)
+			if call == nil || an.CalleeName(call) != "strings.Index" || !strings.HasSuffix(an.AP(call.Args[1]), ".Suffix") {
+				return
+			}
+			sl, ok := call.Args[0].(*ssa.Slice)
+			if !ok || sl.Low == nil {
+				return
+			}
+			n++
+			low := c.O.Of(sl.Low).String()
+			bo, isAdd := sl.Low.(*ssa.BinOp)
+			good := false
+			if isAdd && bo.Op == token.ADD {
+				for _, k := range []ssa.Value{bo.X, bo.Y} {
+					if kc, isK := k.(*ssa.Const); isK && an.ConstKey(kc) == "1" {
+						good = true
+					}
+				}
+			}
+			c.R.Add(rule, c.fk(f), "re-search:strings.Index(text[low:],Suffix)/low=position+1", c.pos(in), good, ifelse(good, "the search resumes one byte after the start of the rejected occurrence ("+low+")", "after the constraint rejected the text before an occurrence of the suffix, the search resumes at "+low+", behind the whole occurrence: an occurrence that overlaps the rejected one (\"--\" in \"---\") is never tried, the request is a 404 or goes to a route of lower priority"))
+			// the position is advanced consistently: some addition to the position uses the result of this search plus 1
+			adv := false
+			if v, isVal := in.(ssa.Value); isVal {
+				for _, ref := range *v.Referrers() {
+					if b1, ok := ref.(*ssa.BinOp); ok && b1.Op == token.ADD {
+						for _, r2 := range *b1.Referrers() {
+							if b2, ok := r2.(*ssa.BinOp); ok && b2.Op == token.ADD {
+								t := c.O.Of(b2).String()
+								if strings.Contains(t, "1") && !strings.Contains(t, "len") {
+									adv = true
+								}
+							}
+						}
+						t := c.O.Of(b1).String()
+						if strings.Contains(t, ", 1)") || strings.Contains(t, "(1, ") {
+							adv = true
+						}
+					}
+				}
+			}
+			if good {
+				c.R.Add(rule, c.fk(f), "re-search/position+=found+1", c.pos(in), adv, ifelse(adv, "the position moves to the occurrence found", "the position is not advanced by (offset found + 1): the capture and the remaining path are cut at the wrong place"))
+			}
+		})
+	}
+	if n == 0 {
+		c.R.Add(rule, "pkg:syntax", "re-search/exists", "-", true, "no re-search loop over a parameter's suffix (one search decides)")
+	}
+}
+
+// ruleRegexpSuffixComparedBytewise — C01.R17 / C02.R15: literal text matches byte for byte. A regexp parameter's
+// literal suffix is compiled into its expression (QuoteMeta), and Go's regexp engine decodes every invalid UTF-8
+// byte of the input as U+FFFD — which equals a U+FFFD rune in the pattern's suffix, so "/1/\xff" matched the route
+// "/{id:\d+}/�". Wherever the syntax package consumes request path after a regexp search (a store to
+// Context.Path after a Find* call on the segment's expression), the path goes through the true edge of a byte-wise
+// comparison with the segment's Suffix (==, strings.HasPrefix, strings.HasSuffix).
+func ruleRegexpSuffixComparedBytewise(c *Ctx, rule string) {
+	c.R.Rule(c.R.Property+"."+rule, 1, "what a regexp search accepted as the literal suffix is compared with it byte for byte")
+	suffixTrue := func(b *ssa.BasicBlock, succ int) bool {
+		return edgeHas(b, succ, func(cond ssa.Value, truth bool) bool {
+			switch x := cond.(type) {
+			case *ssa.BinOp:
+				if x.Op != token.EQL && x.Op != token.NEQ {
+					return false
+				}
+				if strings.HasSuffix(an.AP(x.X), ".Suffix") || strings.HasSuffix(an.AP(x.Y), ".Suffix") {
+					return (x.Op == token.EQL) == truth
+				}
+			case *ssa.Call:
+				switch an.CalleeName(&x.Call) {
+				case "strings.HasPrefix", "strings.HasSuffix":
+					return strings.HasSuffix(an.AP(x.Call.Args[1]), ".Suffix") && truth
+				}
+			}
+			return false
+		})
+	}
+	n := 0
+	for _, f := range c.libFuncs() {
+		if !strings.HasPrefix(an.FuncKey(f), "syntax.") {
+			continue
+		}
+		an.AllInstrs(f, func(in ssa.Instruction) {
+			call := an.CallOf(in)
+			if call == nil || !strings.HasPrefix(an.CalleeName(call), "regexp.(*Regexp).Find") || !strings.HasSuffix(an.AP(call.Args[0]), ".expr") {
+				return
+			}
+			// the searched text is the request path
+			if _, isPath := isCtxPathField(c, call.Args[1]); !isPath {
+				return
+			}
+			n++
+			path := (&an.Query{
+				Target: func(t ssa.Instruction) bool {
+					st, ok := t.(*ssa.Store)
+					if !ok {
+						return false
+					}
+					_, isPath := isCtxPathField(c, st.Addr)
+					return isPath
+				},
+				BlockEdge: suffixTrue,
+			}).Search(an.After(in))
+			o := c.R.Add(rule, c.fk(f), "search:"+strings.TrimPrefix(an.CalleeName(call), "regexp.(*Regexp).")+"/suffix-compared-bytewise", c.pos(in), path == nil, ifelse(path == nil, "the path is consumed only after the text the expression took for the suffix was compared with it byte for byte", "the request path is consumed on the word of the regular expression alone: the engine reads every invalid UTF-8 byte as U+FFFD, so a request with a stray byte where the pattern's literal text has U+FFFD is handed to the route although its literal text differs"))
+			if path != nil {
+				o.Path = c.P.PathString(path)
+			}
+		})
+	}
+	if n == 0 {
+		c.R.Add(rule, "pkg:syntax", "regexp-search-of-the-path/exists", "-", true, "the request path is not searched with a regular expression")
+	}
+}
+
+// ruleExhaustedPathPrefersTheNode — C03.R9 / C02.R16: when the request path is used up at a node that has handlers,
+// that node is the match: its pattern is the request path, literal text down to the last byte. Trying the children
+// first hands the request to a child that accepts the empty rest — an end-point named parameter, `{x:\d*}` — with an
+// empty value, and the node's own route (`/s/` beside `/s/{id}`) cannot be reached at all: the literal route loses to
+// a parameter, and its methods are answered with the child's. In every scanning function no child is attempted on a
+// path on which len(ctx.Path) == 0 and the node has handlers.
+func ruleExhaustedPathPrefersTheNode(c *Ctx, rule string) {
+	c.R.Rule(c.R.Property+"."+rule, 1, "a node with handlers is the match when the request path is used up: no child is tried before it")
+	a := c.A
+	n := 0
+	done := map[*ssa.Function]bool{}
+	for _, s := range attemptSites(c) {
+		f := s.f
+		if done[f] || len(f.Params) == 0 || !isPtrToNamed(f.Params[0].Type(), a.NodeT) {
+			continue
+		}
+		done[f] = true
+		isAttempt := map[ssa.Instruction]bool{}
+		for _, s2 := range attemptSites(c) {
+			if s2.f == f {
+				isAttempt[s2.in] = true
+			}
+		}
+		assume := func(cond ssa.Value) (bool, bool) {
+			v, neg := stripNot(cond)
+			bo, ok := v.(*ssa.BinOp)
+			if !ok {
+				return false, false
+			}
+			kc, isK := bo.Y.(*ssa.Const)
+			call, isCall := bo.X.(*ssa.Call)
+			if !isK || !isCall || an.ConstKey(kc) != "0" {
+				return false, false
+			}
+			x := int64(-1)
+			if cc, isLen := builtinCall(call, "len"); isLen {
+				if _, isPath := isCtxPathField(c, cc.Args[0]); isPath {
+					x = 0 // the path is used up
+				} else if ap := an.AP(cc.Args[0]); ap == "recv."+a.FHandlers {
+					x = 1 // the node has handlers
+				}
+			} else if g := an.StaticCallee(&call.Call); g != nil && isSizeFunc(c, g) && an.AP(call.Call.Args[0]) == "recv" {
+				x = 1
+			}
+			if x < 0 {
+				return false, false
+			}
+			var val bool
+			switch bo.Op {
+			case token.EQL:
+				val = x == 0
+			case token.NEQ:
+				val = x != 0
+			case token.GTR:
+				val = x > 0
+			case token.GEQ:
+				val = x >= 0
+			case token.LSS:
+				val = x < 0
+			case token.LEQ:
+				val = x <= 0
+			default:
+				return false, false
+			}
+			return val != neg, true
+		}
+		n++
+		path := (&an.Query{
+			Assume: assume,
+			Facts:  true,
+			Target: func(t ssa.Instruction) bool { return isAttempt[t] },
+		}).Search(an.Entry(f))
+		o := c.R.Add(rule, c.fk(f), "path-used-up∧node-has-handlers/no-child-attempted", c.P.Pos(f.Pos()), path == nil, ifelse(path == nil, "with the path used up at a node with handlers the scan returns the node without trying a child", "with the request path used up at a node that has handlers, the children are still tried first: a child that accepts the empty rest (an end-point parameter) wins with an empty value, and the node's own route — the literal one, `/s/` beside `/s/{id}` — is unreachable; its methods are answered from the child"))
+		if path != nil {
+			o.Path = c.P.PathString(path)
+		}
+	}
+	if n == 0 {
+		c.R.Add(rule, "pkg:tree", "scanner/exists", "-", false, "no scanning function found")
+	}
+}
+
+// ruleAmbiguitySkipIsTextLength — C17.R10: the ambiguity search skips, in the pattern being registered, the text of
+// the parameter segment it has just compared — as many bytes as that segment's text has. The count is taken from
+// the text itself (len(Value)), minus a part of the suffix at most; a length re-computed from the parts ("{}" + name
+// + rule + ':' when there is a rule + suffix) misses the ':' of the documented form `{name:}`, the search resumes one
+// byte early and `/x/{key:}/a` is accepted beside `/x/{id:}/a` (and unrelated patterns are rejected).
+// Every value a syntax function returns into the slice bound `pattern[l:]` of the search is built from len(Value)
+// and len(Suffix) of segments only.
+func ruleAmbiguitySkipIsTextLength(c *Ctx, rule string) {
+	c.R.Rule(c.R.Property+"."+rule, 1, "the ambiguity search skips exactly the text of the compared segment")
+	search := c.P.Func("tree.(*node).checkAmbiguous")
+	if search == nil {
+		c.R.Add(rule, "pkg:tree", "ambiguity-search/exists", "-", true, "no separate ambiguity search (decided elsewhere)")
+		return
+	}
+	n := 0
+	an.AllInstrs(search, func(in ssa.Instruction) {
+		sl, ok := in.(*ssa.Slice)
+		if !ok || sl.Low == nil || !isStringType(sl.X.Type()) {
+			return
+		}
+		call, isCall := sl.Low.(*ssa.Call)
+		if !isCall {
+			return
+		}
+		g := an.StaticCallee(&call.Call)
+		if g == nil || !strings.HasPrefix(an.FuncKey(g), "syntax.") {
+			return
+		}
+		for i, r := range an.Returns(g) {
+			v := an.ReturnValue(r, 0)
+			if k, isK := v.(*ssa.Const); isK && an.ConstKey(k) == "0" {
+				continue
+			}
+			n++
+			t := c.O.Of(v).String()
+			good := strings.Contains(t, ".Value)") && !strings.Contains(t, "ambiguousLength") && !strings.Contains(t, ".Name") && !strings.Contains(t, ".rule")
+			c.R.Add(rule, c.fk(g), fmt.Sprintf("return#%d/skip=len(text)", i), c.pos(r), good, ifelse(good, "the bytes skipped are "+t, "the number of pattern bytes the ambiguity search skips is "+t+", re-computed from the segment's parts instead of taken from its text: for `{name:}` (empty rule) the ':' is not counted, the search resumes one byte early — a pattern identical up to the name to the only other route is accepted, and an unrelated one is rejected as ambiguous"))
+		}
+	})
+	if n == 0 {
+		c.R.Add(rule, c.fk(search), "skip-length/from-the-syntax-package", c.P.Pos(search.Pos()), false, "the ambiguity search no longer takes the number of bytes to skip from the syntax package")
+	}
+}
